@@ -38,6 +38,16 @@ class EnumVal:
         return f"{self.cls}.{self.name}"
 
 
+@dataclass(frozen=True)
+class Inst:
+    """An instance created by calling a class reference (arguments not modelled)."""
+
+    cls: Ref
+
+    def __repr__(self) -> str:
+        return f"{self.cls.name}()"
+
+
 class _Unknown:
     def __repr__(self) -> str:
         return "Unknown"
@@ -448,6 +458,10 @@ class Symbols:
                         return bool(args[0])
                 except Exception:
                     return Unknown
+            if isinstance(fn, (ast.Name, ast.Attribute)):
+                fv = ev(fn)
+                if isinstance(fv, Ref) and fv.kind in ("pb", "class") and not (fv.kind == "class" and self.is_enum_class(fv)):
+                    return Inst(fv)
             if isinstance(fn, ast.Attribute) and not e.args and not e.keywords:
                 base = ev(fn.value)
                 if isinstance(base, dict):
